@@ -17,7 +17,7 @@ for m in M:
 t12="### 12.1 Results (quick tier, seed 1)\n\n| mutant | owning checks | change | repo suite with mutant | verdict of the checks |\n|---|---|---|---|---|\n"+'\n'.join(rows)+"\n\nMutants whose note says EQUIVALENT cannot be observed by any execution (explained in the note) and are kept for the record.\n"
 seeds=[]
 cur=json.load(open('/verif/seeded/results.json'))
-for d in sorted(glob.glob('/verif/seeded/S-*')):
+for d in sorted(glob.glob('/verif/seeded/S*-C*')):
     m=json.load(open(d+'/meta.json'))
     allc=cur.get(m['id'],{}).get('checks',{})
     also=sorted(p for p,c in allc.items() if c.get('caught') and p!=m['breaks'])
